@@ -61,16 +61,13 @@ fn c18_propagation_delay_arithmetic() {
         assert!(r.is_none());
     } else {
         let prop = r.unwrap();
-        // exact: (total - reported) / 2 in nanoseconds
-        assert!(prop.as_nanos() == ((total - reported as u64) as u128 * 1_000_000) / 2);
+        // exact: (total - reported) / 2, i.e. 500 us per ms of difference (no rounding loss)
+        assert!(prop == Duration::from_micros((total - reported as u64) * 500));
         if reported == p_ms {
-            // honest outstation: error of the estimate of the forward delay = half the asymmetry
-            let est_us = prop.as_micros() as i64;
-            let err_us = est_us - f_ms as i64 * 1000;
-            let asym_us = (b_ms as i64 - f_ms as i64) * 1000;
-            assert!(err_us * 2 == asym_us);
+            // honest outstation: estimate = f + (b - f)/2, i.e. the error is half the asymmetry and zero when f == b
+            assert!(prop == Duration::from_micros((f_ms as u64 + b_ms as u64) * 500));
             if f_ms == b_ms {
-                assert!(err_us == 0);
+                assert!(prop == Duration::from_millis(f_ms as u64));
             }
         }
     }
